@@ -38,6 +38,7 @@ func (m *Mutex) Unlock() {
 	m.st.A.Store(0)
 	sched.HideEnd()
 	m.mu.Unlock()
+	sched.AfterUnlock()
 }
 
 func (m *Mutex) TryLock() bool {
@@ -80,6 +81,7 @@ func (m *RWMutex) Unlock() {
 	m.st.A.Store(0)
 	sched.HideEnd()
 	m.mu.Unlock()
+	sched.AfterUnlock()
 }
 
 func (m *RWMutex) RLock() {
@@ -95,6 +97,7 @@ func (m *RWMutex) RUnlock() {
 	m.st.B.Add(-1)
 	sched.HideEnd()
 	m.mu.RUnlock()
+	sched.AfterUnlock()
 }
 
 func (m *RWMutex) RLocker() Locker { return (*rlocker)(m) }
